@@ -12,7 +12,7 @@ import ast
 from .. import totality
 from ..lattice import ir_family, reaching_classes
 from ..model import call_name, own_nodes, unparse
-from ..pathcond import path_info
+from ..pathcond import assigned_alternatives, path_info
 from ..paths import enumerate_paths, path_calls
 from ._pynames import helper_bases, norm
 from .C10 import emission_order
@@ -126,10 +126,9 @@ def run(pm, ctx):
     cn = pm.func(PH + '.class_name_for_data_type')
     pi = path_info(cn.node)
     defs_ = {}
-    for n in own_nodes(cn.node):
-        if isinstance(n, ast.Assign) and unparse(n.targets[0]) == 'name':
-            alias_branch = [pol for e, pol in pi.at(n) if unparse(e) == 'is_alias(data_type)']
-            defs_[unparse(n.value)] = alias_branch
+    for leaf, _st in assigned_alternatives(cn.node, 'name'):
+        alias_branch = [pol for e, pol in pi.at(leaf) if unparse(e) == 'is_alias(data_type)']
+        defs_[unparse(leaf)] = alias_branch
     ctx.check('C09-R2', defs_ == {'data_type.name': [True], 'fmt_class(data_type.name)': [False]},
               'class_name_for_data_type: aliases keep their spec name, user types are '
               'fmt_class(name)', cn.loc,
